@@ -251,11 +251,11 @@ Definition run_case (x : sexp) : sexp :=
       | [cx; wx; rx; vx] =>
         match cfg_of cx, schema_of conv_fuel wx, schema_of conv_fuel rx, value_of conv_fuel vx with
         | Some c, Some W, Some R, Some v =>
+          let show_c (r : res compat) :=
+            match r with Ok CFull => Sym "full" | Ok CPartial => Sym "partial" | Err => Sym "incompatible"
+                       | Panic => Sym "panic" | OutOfFuel => Sym "out-of-fuel" end in
           match resolved W, resolved R with
           | Ok wn, Ok rn =>
-            let show_c (r : res compat) :=
-              match r with Ok CFull => Sym "full" | Ok CPartial => Sym "partial" | Err => Sym "incompatible"
-                         | Panic => Sym "panic" | OutOfFuel => Sym "out-of-fuel" end in
             (* what the reader sees is the value decoded with the writer's schema *)
             match (do bs <- write_value run_fuel (find_impl c run_fuel) true wn W v;
                    decode run_fuel c wn None W bs) with
@@ -272,7 +272,11 @@ Definition run_case (x : sexp) : sexp :=
                  show_c (can_read run_fuel W R); show_c (can_read run_fuel R W);
                  show_c (mutual_read run_fuel W R); show_c (can_read run_fuel W W)]
             end
-          | _, _ => obs_err
+          | _, _ =>
+            (* a reference that does not resolve: no writer or reader can be built, the verdicts still exist *)
+            L [Sym "unwritable";
+               show_c (can_read run_fuel W R); show_c (can_read run_fuel R W);
+               show_c (mutual_read run_fuel W R); show_c (can_read run_fuel W W)]
           end
         | _, _, _, _ => obs_bad
         end
